@@ -35,7 +35,7 @@ func init() { vh.Register("CODECWORKER", runWorker) }
 type wreq struct {
 	ID     int    `json:"id"`
 	Target string `json:"target"`
-	Kind   string `json:"kind"` // json query
+	Kind   string `json:"kind"` // json query json-any (JSONToProto with a codec built WithProtoToAny)
 	Doc    []byte `json:"doc,omitempty"`
 	Query  []wkv  `json:"query,omitempty"`
 }
@@ -119,6 +119,11 @@ func runWorker(cfg *vh.Config) error {
 				o = inProcess(func() (protoreflect.Message, error) {
 					m := t.New()
 					return m, theCodec.JSONToProto(req.Doc, m)
+				})
+			case "json-any":
+				o = inProcess(func() (protoreflect.Message, error) {
+					m := t.New()
+					return m, theAnyCodec.JSONToProto(req.Doc, m)
 				})
 			case "query":
 				o = inProcess(func() (protoreflect.Message, error) {
